@@ -21,7 +21,7 @@
      `mt_root_from_proof` / SMT.Model;
    * a Merkle proof as decoded from JSON is an `rproof`: existence flag, ALL siblings
      (depth = their number), NodeAux = nil | {Key,Value} each possibly nil. *)
-From Coq Require Import ZArith List String Bool Arith.
+From Coq Require Import ZArith List String Ascii Bool Arith.
 From GSP Require Import Base.Prelude SMT.Model.
 Import ListNotations.
 Open Scope list_scope.
@@ -29,6 +29,48 @@ Open Scope Z_scope.
 
 (* `*string` that should hold the hex form of a 32-byte hash *)
 Inductive hexf := HNil | HBad | HVal (z : Z).
+
+(* merkletree.NewHashFromHex, the decoder of the *string members: the abstraction `hexf`
+   used everywhere else is hex_decode of the Go string (hexf_of_member) --
+   strings.TrimPrefix(h, "0x"); hex.DecodeString (even length, [0-9a-fA-F]); exactly 32
+   bytes; the bytes are the little-endian form of the number. *)
+Definition hex_digit (c : ascii) : option Z :=
+  let n := Z.of_nat (nat_of_ascii c) in
+  if (48 <=? n) && (n <=? 57) then Some (n - 48)
+  else if (97 <=? n) && (n <=? 102) then Some (n - 87)
+  else if (65 <=? n) && (n <=? 70) then Some (n - 55)
+  else None.
+
+(* bytes of an even-length hex string, None = hex.DecodeString fails *)
+Fixpoint hex_bytes (s : string) : option (list Z) :=
+  match s with
+  | EmptyString => Some []
+  | String _ EmptyString => None
+  | String a (String b r) =>
+      match hex_digit a, hex_digit b, hex_bytes r with
+      | Some x, Some y, Some t => Some (16 * x + y :: t)
+      | _, _, _ => None
+      end
+  end.
+
+Fixpoint le_value (bs : list Z) : Z :=
+  match bs with [] => 0 | b :: r => b + 256 * le_value r end.
+
+Definition trim_0x (s : string) : string :=
+  match s with
+  | String "0" (String "x" r) => r
+  | _ => s
+  end.
+
+Definition hex_decode (s : string) : hexf :=
+  match hex_bytes (trim_0x s) with
+  | Some bs => if Nat.eqb (List.length bs) 32 then HVal (le_value bs) else HBad
+  | None => HBad
+  end.
+
+(* a `*string` member of TreeState *)
+Definition hexf_of_member (s : option string) : hexf :=
+  match s with None => HNil | Some x => hex_decode x end.
 
 Record rproof := mkrp {
   r_ex : bool;
